@@ -834,7 +834,7 @@ def build_cases(tier="quick"):
     # vm.etch of a fresh address: a symbolic address that was resolved to `no account` before must see the new code (C02's unit)
     from contracts.common import rewrap
 
-    ref += rewrap(PROP, c02.alias_cases(), "etch-visible-through-aliases", lambda c: "set_code" in c.case)
+    ref += rewrap(PROP, c02.alias_cases(), "etch-visible-through-aliases", lambda c: "set_code" in c.case or "allow_branching" in c.case)
     # vm.store / vm.load: a store changes the targeted slot only, also on an account with arbitrary storage (C02/C08's unit)
     ref += rewrap(PROP, c02.select_cases(), "store-touches-its-slot-only")
     return etch_cases() + default_block_cases() + prank_cases() + resolve_prank_cases() + prank_arm_cases() + setter_cases() + create_cases() + call_prank_cases() + ref
